@@ -276,10 +276,10 @@ func r18_2(c *Ctx, rule string) {
 		c.R.Check(dom, rule, c.siteName(call)+"/kept-after-root-test", c.pos(call), "an element is kept only after it was compared with \".\"", "an element is appended to the result without having been compared with \".\"")
 	}
 	n := 0
-	for _, call := range c.P.CallsTo(dd, "strings.HasPrefix") {
+	for _, pt := range c.prefixTests(dd) {
 		n++
-		ok, why := sepTerminated(c, call.Common().Args[1], false, 0)
-		c.R.Check(ok, rule, c.siteName(call)+"/separator-terminated", c.pos(call), "prefix is last + \"/\"", "the containment prefix is not separator-terminated ("+why+"): 'a' swallows 'ab'")
+		ok, why := sepTerminated(c, pt.prefix, false, 0)
+		c.R.Check(ok, rule, pt.name+"/separator-terminated", c.pos(pt.site), "prefix is last + \"/\"", "the containment prefix is not separator-terminated ("+why+"): 'a' swallows 'ab'")
 	}
 	c.R.Floor(rule, "prefix tests in dedupePaths", n, 1)
 }
